@@ -84,7 +84,9 @@ HardMovOf(nl) == { i \in Nodes(nl) : nl.kind[i] = "hard" }
 \* how far node i may be from the die centre in dimension d (max_span in the code)
 Span(nl, d) == [ i \in Nodes(nl) |-> nl.half[d] - nl.rad[i] ]
 \* the quantifier of C14: the disc of every movable module fits in the die
-Fits(nl) == \A i \in MovOf(nl) : \A d \in 1..2 : nl.rad[i] < nl.half[d]
+\* (a disc exactly as wide as the die fits: its module has no room to move in that dimension, span 0, and normalize
+\* then puts every movable module on the centre line of that dimension)
+Fits(nl) == \A i \in MovOf(nl) : \A d \in 1..2 : nl.rad[i] <= nl.half[d]
 
 \* least integer radius whose disc has at least area a (pi ~ 355/113): the lattice stand-in of sqrt(a/pi)
 CeilRad(a) == CHOOSE r \in 0..a : 355 * r * r >= 113 * a /\ (r = 0 \/ 355 * (r - 1) * (r - 1) < 113 * a)
